@@ -203,4 +203,191 @@ theorem rndq_mono (n1 n2 : Nat) (e : Int) (h1 : 0 < n1) (h : n1 ≤ n2) : Kof (r
     generalize (rndq n2 e).1 = q2 at *
     omega
 
+
+theorem log2_mul_two_pow (n d : Nat) (hn : 0 < n) : (n * 2 ^ d).log2 = n.log2 + d := by
+  have hlo := Nat.log2_self_le (n := n) (by omega)
+  have hhi := Nat.lt_log2_self (n := n)
+  have hpos : 0 < 2 ^ d := Nat.two_pow_pos _
+  rw [Nat.log2_eq_iff (by have := Nat.mul_pos hn hpos; omega)]
+  constructor
+  · rw [Nat.pow_add]; exact Nat.mul_le_mul_right _ hlo
+  · rw [show n.log2 + d + 1 = n.log2 + 1 + d by omega, Nat.pow_add]; exact Nat.mul_lt_mul_of_pos_right hhi hpos
+
+/-- (C) scaling the significand by 2^d and lowering the exponent by d changes nothing -/
+theorem rndq_scale (n d : Nat) (hn : 0 < n) (e : Int) : rndq (n * 2 ^ d) (e - d) = rndq n e := by
+  unfold rndq
+  dsimp only
+  rw [log2_mul_two_pow n d hn]
+  generalize n.log2 = L
+  have hS : max ((((L + d : Nat)) : Int) + 1 - 53) (-1074 - (e - (d : Int))) = max ((L : Int) + 1 - 53) (-1074 - e) + d := by omega
+  rw [hS]
+  generalize hSdef : max ((L : Int) + 1 - 53) (-1074 - e) = S
+  have hpd : 0 < 2 ^ d := Nat.two_pow_pos _
+  by_cases h1 : S + (d : Int) ≤ 0
+  · have h2 : S ≤ 0 := by omega
+    rw [if_pos h1, if_pos h2]
+    refine Prod.ext ?_ (by simp only; omega)
+    simp only [Nat.shiftLeft_eq]
+    have : (-S).toNat = d + (-(S + (d : Int))).toNat := by omega
+    rw [this, Nat.pow_add, Nat.mul_assoc]
+  · rw [if_neg h1]
+    by_cases h2 : S ≤ 0
+    · rw [if_pos h2]
+      refine Prod.ext ?_ (by simp only; omega)
+      simp only [Nat.shiftLeft_eq, Nat.shiftRight_eq_div_pow]
+      have hd : d = (-S).toNat + (S + (d : Int)).toNat := by omega
+      generalize (-S).toNat = t at *
+      generalize hsh : (S + (d : Int)).toNat = sh at *
+      have hshpos : 0 < sh := by omega
+      have hn2 : n * 2 ^ d = n * 2 ^ t * 2 ^ sh := by rw [hd, Nat.pow_add, Nat.mul_assoc]
+      rw [hn2, Nat.mul_div_cancel _ (Nat.two_pow_pos _), Nat.mul_mod_left]
+      have hhalf : 0 < 2 ^ (sh - 1) := Nat.two_pow_pos _
+      rw [if_neg (by omega)]
+    · rw [if_neg h2]
+      refine Prod.ext ?_ (by simp only; omega)
+      simp only [Nat.shiftRight_eq_div_pow]
+      have hsh : (S + (d : Int)).toNat = S.toNat + d := by omega
+      rw [hsh]
+      generalize hshdef : S.toNat = sh
+      have hshpos : 0 < sh := by omega
+      have hq : n * 2 ^ d / 2 ^ (sh + d) = n / 2 ^ sh := by
+        rw [Nat.pow_add]; exact Nat.mul_div_mul_right _ _ hpd
+      have hr : n * 2 ^ d % 2 ^ (sh + d) = n % 2 ^ sh * 2 ^ d := by
+        rw [Nat.pow_add]; exact Nat.mul_mod_mul_right _ _ _
+      have hh : 2 ^ (sh + d - 1) = 2 ^ (sh - 1) * 2 ^ d := by
+        rw [← Nat.pow_add]; congr 1; omega
+      rw [hq, hr, hh]
+      have c1 : (n % 2 ^ sh * 2 ^ d > 2 ^ (sh - 1) * 2 ^ d) ↔ (n % 2 ^ sh > 2 ^ (sh - 1)) :=
+        Nat.mul_lt_mul_right hpd
+      have c2 : (n % 2 ^ sh * 2 ^ d = 2 ^ (sh - 1) * 2 ^ d) ↔ (n % 2 ^ sh = 2 ^ (sh - 1)) :=
+        Nat.mul_left_inj (by omega)
+      simp only [c1, c2]
+
+/-- the rounding of every point strictly inside the cell (Q·2^e, (Q+1)·2^e) of a grid that is at least 4 times finer
+    than the doubles (Q has at least 55 bits): down to ⌊Q/2^sh⌋ or up, decided by the half bit of Q alone -/
+def cellRound (Q : Nat) (e : Int) : Nat × Int :=
+  (Q / 2 ^ (max ((Q.log2 : Int) + 1 - 53) (-1074 - e)).toNat +
+    (if 2 ^ ((max ((Q.log2 : Int) + 1 - 53) (-1074 - e)).toNat - 1) ≤ Q % 2 ^ (max ((Q.log2 : Int) + 1 - 53) (-1074 - e)).toNat
+      then 1 else 0),
+   e + max ((Q.log2 : Int) + 1 - 53) (-1074 - e))
+
+/-- (D) interior points of a cell: the result does not depend on where in the cell the point lies -/
+theorem rndq_interior (Q d r : Nat) (e : Int) (hQ : 2 ^ 54 ≤ Q) (hr0 : 0 < r) (hr : r < 2 ^ d) :
+    rndq (Q * 2 ^ d + r) (e - d) = cellRound Q e := by
+  have hQ0 : Q ≠ 0 := by have := Nat.two_pow_pos 54; omega
+  have hLq : 54 ≤ Q.log2 := (Nat.le_log2 hQ0).2 hQ
+  have hlo := Nat.log2_self_le (n := Q) hQ0
+  have hhi := Nat.lt_log2_self (n := Q)
+  have hpd : 0 < 2 ^ d := Nat.two_pow_pos _
+  have hlog : (Q * 2 ^ d + r).log2 = Q.log2 + d := by
+    rw [Nat.log2_eq_iff (by omega)]
+    constructor
+    · calc 2 ^ (Q.log2 + d) = 2 ^ Q.log2 * 2 ^ d := Nat.pow_add _ _ _
+        _ ≤ Q * 2 ^ d := Nat.mul_le_mul_right _ hlo
+        _ ≤ Q * 2 ^ d + r := Nat.le_add_right _ _
+    · calc Q * 2 ^ d + r < Q * 2 ^ d + 2 ^ d := by omega
+        _ = (Q + 1) * 2 ^ d := by rw [Nat.add_mul, Nat.one_mul]
+        _ ≤ 2 ^ (Q.log2 + 1) * 2 ^ d := Nat.mul_le_mul_right _ hhi
+        _ = 2 ^ (Q.log2 + d + 1) := by rw [← Nat.pow_add]; congr 1; omega
+  unfold rndq cellRound
+  dsimp only
+  rw [hlog]
+  generalize Q.log2 = L at *
+  have hS : max ((((L + d : Nat)) : Int) + 1 - 53) (-1074 - (e - (d : Int))) = max ((L : Int) + 1 - 53) (-1074 - e) + d := by omega
+  rw [hS]
+  generalize hSdef : max ((L : Int) + 1 - 53) (-1074 - e) = S
+  have hS2 : 2 ≤ S := by omega
+  rw [if_neg (by omega)]
+  refine Prod.ext ?_ (by simp only; omega)
+  simp only [Nat.shiftRight_eq_div_pow]
+  have hsh : (S + (d : Int)).toNat = S.toNat + d := by omega
+  rw [hsh]
+  generalize hshdef : S.toNat = sh
+  have hsh2 : 2 ≤ sh := by omega
+  have hps : 0 < 2 ^ sh := Nat.two_pow_pos _
+  -- quotient and remainder of the scaled point
+  have hQdm := Nat.div_add_mod Q (2 ^ sh)
+  have hR0 := Nat.mod_lt Q hps
+  generalize hq0 : Q / 2 ^ sh = q0 at *
+  generalize hR0d : Q % 2 ^ sh = R0 at *
+  have hlt : R0 * 2 ^ d + r < 2 ^ (sh + d) := by
+    calc R0 * 2 ^ d + r < R0 * 2 ^ d + 2 ^ d := by omega
+      _ = (R0 + 1) * 2 ^ d := by rw [Nat.add_mul, Nat.one_mul]
+      _ ≤ 2 ^ sh * 2 ^ d := Nat.mul_le_mul_right _ (by omega)
+      _ = 2 ^ (sh + d) := (Nat.pow_add _ _ _).symm
+  have hdecomp : (R0 * 2 ^ d + r) + 2 ^ (sh + d) * q0 = Q * 2 ^ d + r := by
+    rw [← hQdm, Nat.pow_add, Nat.add_mul, Nat.mul_assoc, Nat.mul_comm (2 ^ d) q0, ← Nat.mul_assoc, Nat.mul_comm (2 ^ sh * q0)]
+    generalize 2 ^ d * (2 ^ sh * q0) = X
+    omega
+  obtain ⟨hdiv, hmod⟩ := (Nat.div_mod_unique (Nat.two_pow_pos (sh + d))).2 ⟨hdecomp, hlt⟩
+  rw [hdiv, hmod]
+  have hh : 2 ^ (sh + d - 1) = 2 ^ (sh - 1) * 2 ^ d := by
+    rw [← Nat.pow_add]; congr 1; omega
+  rw [hh]
+  generalize 2 ^ (sh - 1) = H0 at *
+  by_cases hge : H0 ≤ R0
+  · have : H0 * 2 ^ d ≤ R0 * 2 ^ d := Nat.mul_le_mul_right _ hge
+    rw [if_pos (Or.inl (by omega)), if_pos hge]
+  · have : (R0 + 1) * 2 ^ d ≤ H0 * 2 ^ d := Nat.mul_le_mul_right _ (by omega)
+    rw [Nat.add_mul, Nat.one_mul] at this
+    rw [if_neg (by omega), if_neg hge]
+    rfl
+
+/-! ### (E) `roundRat` at a common scale -/
+
+/-- twice the quotient of N·2^d by D, plus a sticky bit: what `roundRat` hands to `roundPack` (there with d = 0) -/
+def scaled (N D d : Nat) : Nat := 2 * (N * 2 ^ d / D) + (if N * 2 ^ d % D = 0 then 0 else 1)
+
+/-- refining the scale by 2^d does not change the rounding, once the quotient has at least 55 bits -/
+theorem rndq_scaled (N D d : Nat) (e : Int) (hD : 0 < D) (hQ : 2 ^ 54 ≤ N / D) :
+    rndq (scaled N D d) (e - d) = rndq (scaled N D 0) e := by
+  have hpd : 0 < 2 ^ d := Nat.two_pow_pos _
+  have hdm := Nat.div_add_mod N D
+  have hml := Nat.mod_lt N hD
+  by_cases hR : N % D = 0
+  · -- exact quotient: pure scaling
+    have hN : N = D * (N / D) := by omega
+    have h1 : N * 2 ^ d / D = N / D * 2 ^ d := by
+      rw [hN, Nat.mul_assoc, Nat.mul_div_cancel_left _ hD, Nat.mul_div_cancel_left _ hD]
+    have h2 : N * 2 ^ d % D = 0 := by
+      rw [hN, Nat.mul_assoc]; exact Nat.mul_mod_right _ _
+    unfold scaled
+    simp only [h1, h2, hR, if_true, Nat.pow_zero, Nat.mul_one, Nat.add_zero]
+    rw [← Nat.mul_assoc]
+    exact rndq_scale (2 * (N / D)) d (by have := Nat.two_pow_pos 54; omega) e
+  · -- inexact: every refinement is an interior point of the same cell
+    have hA : N * 2 ^ d / D / 2 ^ d = N / D := by
+      rw [Nat.div_div_eq_div_mul, Nat.mul_div_mul_right _ _ hpd]
+    have hAdm := Nat.div_add_mod (N * 2 ^ d / D) (2 ^ d)
+    have hAml := Nat.mod_lt (N * 2 ^ d / D) hpd
+    rw [hA] at hAdm
+    have hne : ¬ (N * 2 ^ d / D % 2 ^ d = 0 ∧ N * 2 ^ d % D = 0) := by
+      rintro ⟨h1, h2⟩
+      apply hR
+      have e1 := Nat.div_add_mod (N * 2 ^ d) D
+      rw [h2, Nat.add_zero] at e1
+      rw [h1, Nat.add_zero] at hAdm
+      rw [← hAdm] at e1
+      have e2 : N * 2 ^ d = (D * (N / D)) * 2 ^ d := by rw [← e1]; ac_rfl
+      have e3 : N = D * (N / D) := Nat.eq_of_mul_eq_mul_right hpd e2
+      omega
+    have h0 : scaled N D 0 = N / D * 2 ^ 1 + 1 := by
+      unfold scaled; simp only [Nat.pow_zero, Nat.mul_one, hR, if_false]; omega
+    have hX : N / D * (2 ^ d * 2) = 2 * (2 ^ d * (N / D)) := by ac_rfl
+    have hd : scaled N D d = N / D * 2 ^ (d + 1) +
+        (2 * (N * 2 ^ d / D % 2 ^ d) + (if N * 2 ^ d % D = 0 then 0 else 1)) := by
+      unfold scaled
+      rw [Nat.pow_succ, hX]
+      omega
+    have e0 := rndq_interior (N / D) 1 1 (e + 1) hQ (by decide) (by decide)
+    have hpow1 : (2 : Nat) ^ (d + 1) = 2 * 2 ^ d := by rw [Nat.pow_succ, Nat.mul_comm]
+    have ed := rndq_interior (N / D) (d + 1) (2 * (N * 2 ^ d / D % 2 ^ d) + (if N * 2 ^ d % D = 0 then 0 else 1))
+      (e + 1) hQ (by split <;> omega) (by rw [hpow1]; split <;> omega)
+    rw [h0, hd]
+    have cd : e - (d : Int) = e + 1 - ((d + 1 : Nat) : Int) := by omega
+    have e0' : rndq (N / D * 2 ^ 1 + 1) e = cellRound (N / D) (e + 1) := by
+      have c0 : e + 1 - ((1 : Nat) : Int) = e := by omega
+      rw [c0] at e0; exact e0
+    rw [cd, ed, e0']
+
 end NodisVerif.Proofs.FloatDecMono
